@@ -182,14 +182,14 @@ def main(tier: str, seed: int) -> int:
                  patterns=trees.PATTERNS[:4], max_pat=1, share=True,
                  segs=('a', 'ab', 'a_b', 'b'), simulate=6000),
             dict(kinds=['linear', 'homact', 'homlin', 'conv', 'linsub'],
-                 frozen=['none', 'part'], max_leaves=4, max_depth=2,
+                 frozen=['none', 'part'], max_leaves=3, max_depth=2,
                  patterns=trees.PATTERNS[4:5] + trees.PATTERNS[7:9],
-                 max_pat=2, share=True, simulate=4000),
+                 max_pat=2, share=True, simulate=2000),
             dict(kinds=['linear', 'conv', 'linsub', 'act', 'empty'],
-                 frozen=['none', 'all'], max_leaves=4, max_depth=3,
+                 frozen=['none', 'all'], max_leaves=3, max_depth=2,
                  patterns=trees.WRAP_PATTERNS, max_pat=2, share=True,
                  segs=('module', 'submodule', '0', 'sub', 'modules'),
-                 simulate=6000),
+                 simulate=2000),
         ]
     gscope = dict(kinds=['colpar', 'rowpar', 'linear', 'act', 'empty'],
                   frozen=['none', 'part', 'all'], max_leaves=2, max_depth=2,
